@@ -230,8 +230,8 @@ AcceptPair(e) ==
                  ok(i) == i = 1 /\ fl.cls = "fin" /\ ~Fits(FloatToFixR(fl, LF(u.B)), u.B) IN
              /\ SameCall(u, c)
              /\ PairSlots(u.o, c.o, ok) /\ PairSlots(u.o2, c.o2, ok)
-       [] u.k \in {"cmp", "cmpf", "ord", "from", "x2f", "codec", "impl"} -> [x \in (DOMAIN u) \ {"pr"} |-> u[x]] = [x \in (DOMAIN c) \ {"pr"} |-> c[x]]
-       [] u.k \in {"wreset", "wload", "w"} -> [x \in (DOMAIN u) \ {"pr"} |-> u[x]] = [x \in (DOMAIN c) \ {"pr"} |-> c[x]]
+       [] u.k \in {"cmp", "cmpf", "ord", "from", "x2f", "i2f", "codec", "impl"} -> [x \in (DOMAIN u) \ {"pr"} |-> u[x]] = [x \in (DOMAIN c) \ {"pr"} |-> c[x]]
+       [] u.k \in {"wreset", "wload", "w", "wobs"} -> [x \in (DOMAIN u) \ {"pr"} |-> u[x]] = [x \in (DOMAIN c) \ {"pr"} |-> c[x]]
        \* parsing and formatting never depend on the profile and never panic
        [] u.k \in {"parse", "fmt"} -> [x \in (DOMAIN u) \ {"pr"} |-> u[x]] = [x \in (DOMAIN c) \ {"pr"} |-> c[x]]
        \* math: the Result-returning functions must agree exactly (value, Err, iteration count); sin / cos / tan
